@@ -53,6 +53,27 @@ CHECKS = {
   "Worker interleavings beyond the forced out-of-order family are free-running (E2 part planned); DryRun not covered.", "DESIGN.md#c19"),
 }
 
+CHECKS.update({
+ "C03": ("fault_enumeration", "exhaustive enumeration of (checkpoint k, crash snapshot t, torn on-disk state per file, save schedule, chain of interruptions) over recorded runs of the real patcher; every resumption uses a gob round-tripped checkpoint in a brand-new patcher/pool/bowl",
+  "Per configuration ({fresh, overlay} x {rsync, optimized} x {none, gzip-6, brotli-1} x 3 build pairs): every checkpoint offered x crash points x torn states (as at t / as at k / truncated at boundary lengths / zero-filled / missing) x chains (depth 3) x save schedules; the resumed run must finish and produce exactly the uninterrupted run's tree; always-saving consumers must be offered checkpoints.",
+  "Crash model: file-granular prefix/torn states of writes after the checkpoint; no reordering inside a write; fsync omissions are not observable in-process. Two-file torn products use a reduced state set.", "DESIGN.md#c03"),
+ "C07": ("model_checking", E1 + " over patches x optimizer parameters (partitions 0..16, concurrency, ForceMapAll, size limits, output compression); optimized patch applied fresh AND in place and compared with the new build",
+  "1374 byte-level pairs and 53 block-level pairs x partitions 0..16 x ForceMapAll x size limits (full product), concurrency x compression cycled: NewContext/Optimize must not crash (journaled workers attribute process crashes) and the optimized patch must apply fresh and in place to exactly the new build.",
+  "Optimized patches byte-identical to one already verified for the same pair are not re-applied.", "DESIGN.md#c07"),
+ "C12": ("model_checking", E1 + " of bsdiff.Do + Patch against a reference applier and the mid-series restart oracle; explicit-state BFS to fixpoint over the real lrufile against a shadow model; constant-scaled cache geometries by overlay",
+  "All (old,new) over {0,1} up to 8x8 and {0,1,2} up to 5x5 x partitions, structured large family, all hand-made valid series of <=5 messages under scaled cache geometries; lrufile: every reachable shadow state (offset + LRU residency) for chunk 1..4 x entries 1..3 x sizes 0..9 explored by BFS with every seek/read/reset operation, implementation stats and data compared with the shadow model at every step.",
+  "Scanner goroutine interleavings are covered under C15's controlled-scheduler scenarios; underlying readers fill the buffer except at EOF.", "DESIGN.md#c12"),
+ "C13": ("model_checking", E1 + " over message-size sequences x every compressor/quality x save-request positions; every popped checkpoint gob round-tripped and resumed in a brand-new source+reader stack (also second generation)",
+  "All sequences of length <=2 over sizes straddling the 32KiB buffer and its power-of-two growth steps (0..4MiB+1), monotone/big-then-small sequences of length 3-4, x {none, gzip 1-9, brotli 0-9} x save before message i / every message: uninterrupted read equals the written sequence then EOF; every resumed reader yields exactly the unread suffix; checkpoint offsets are message boundaries of the independently framed stream.",
+  "No checkpoint count is asserted (brotli offers few). Brotli has no second independent decoder offline.", "DESIGN.md#c13"),
+ "C14": ("model_checking", E1 + " over (old,new) x all cuts into <=3 writes x flush/resume tags with window/threshold scaled to 8/2 and 4/1 by overlay; full-scale segment grammar",
+  "Scaled: every binary (old,new) up to length 8 and every equality pattern up to 12-13 x every cut and tag (plain, Flush, Flush+resume from reported offsets, resume after stale writes); full scale: run lengths around the 8KiB threshold and the 128KiB window x placements x write sizes. Real OverlayPatchContext.Patch + truncate must give new; reference applier agrees; reported offsets equal bytes consumed/produced.",
+  "Scaling changes only the two constants; effective values are probed behaviourally and scaled sub-checks skip otherwise.", "DESIGN.md#c14"),
+ "C15": ("model_checking", "stateless model checking of WritePatch, the bsdiff scanner and the optimizer under a controlled cooperative scheduler (preemption-bounded DFS with happens-before state caching over interleavings, select choices, map iteration orders and short reads); separate Go race detector pass on the free-running bodies",
+  "Every interleaving (up to the stated preemption bound per scenario) of the differ's diff/sign/reader goroutines, of the bsdiff workers/dispatcher/collector/suffix-sort goroutines and every map iteration order of the optimizer's analysis must write byte-identical patch, signature, counters, control messages and mappings; no deadlock. Race freedom: the same bodies under -race with GOMAXPROCS 1,2,4,16 (a detector pass, not an enumeration).",
+  "Code between visible operations is atomic under the scheduler; io.Pipe modelled atomically; data races only through the race-detector pass.", "DESIGN.md#c15"),
+})
+
 NOT_YET = {}
 
 def main():
